@@ -169,6 +169,9 @@ def factor_src(f):
     if k == "st":
         e = f"{f['fn']}({qname(f['col'])})"
         return e, e
+    if k == "ctx":
+        # an expression over objects the caller supplies through the context (not data columns)
+        return f["src"], f["src"]
     if k == "bsK":
         e = f"bs({qname(f['col'])}, knots=K, degree=1, extrapolation='extend')"
         return e, e
